@@ -341,6 +341,44 @@ def rename_chain_layer():
     return out
 
 
+def shared_statement_layer():
+    """two scopes with the identical non-ONLY statement `use mg` (or `use mg, tz => t3`), each with a further
+    USE of mg that renames -- different names in the two scopes.  What the shared statement gives a scope
+    depends on the names the scope's other statements rename (Fortran 2018 14.2.2): scope A hides x1, scope B
+    hides x2.  The scopes are two modules (every file order), or two module procedures / a module procedure
+    and an internal procedure of another one in one module; types, procedures and variables"""
+    kinds = [("t", "type"), ("p", "proc"), ("v", "var")]
+    mg = mod("mg", "public", [(f"{k}{i}", kind, "public") for k, kind in kinds for i in (1, 2, 3)])
+    out = []
+    for sname, shared in (("plain", lambda: use("mg")), ("rename", lambda: use("mg", None, [("tz", "t3")])),
+                          ("colon", lambda: use("mg", prefix="::"))):
+        for cname, comp in (("only", lambda i: use("mg", [(f"{k}q{i}", f"{k}{i}") for k, _ in kinds])),
+                            ("rename", lambda i: use("mg", None, [(f"{k}q{i}", f"{k}{i}") for k, _ in kinds]))):
+            if sname != "plain" and cname != "only":
+                continue
+            for first in (True, False):         # the shared statement before / after the companion
+                ua = [shared(), comp(1)] if first else [comp(1), shared()]
+                ub = [shared(), comp(2)] if first else [comp(2), shared()]
+                tag = f"shared:{sname}:{cname}:{'first' if first else 'last'}"
+                names_t = ["t1", "t2", "t3", "tq1", "tq2", "tz"]
+                names_p = ["p1", "p2", "p3", "pq1", "pq2"]
+                mb, mc = mod("mb", uses=ua), mod("mc", uses=ub)
+                mb["decls"] = [ref_var(f"vb{j}", "type", n) for j, n in enumerate(names_t)]
+                mc["decls"] = [ref_var(f"vc{j}", "type", n) for j, n in enumerate(names_t)]
+                md = mod("md", uses=[use("mc")])
+                out.append((tag + ":modules", [mg, mb, mc, md], "all"))
+                refs = [("type", n) for n in names_t] + [("call", n) for n in names_p]
+                mm = mod("mm", "public")
+                mm["decls"].append(nested_decl(nd("pa", "routine", ua, refs), "proc"))
+                mm["decls"].append(nested_decl(nd("pb", "routine", ub, refs), "proc"))
+                out.append((tag + ":two_modprocs", [mm, mg], 2))
+                mm2 = mod("mm", "public")
+                mm2["decls"].append(nested_decl(nd("pa", "routine", [], [], [nd("qa", "routine", ub, refs)]), "proc"))
+                mm2["decls"].append(nested_decl(nd("pb", "routine", ua, refs), "proc"))
+                out.append((tag + ":internal_and_modproc", [mm2, mg], 2))
+    return out
+
+
 def shadow_layer():
     """a nested scope whose USE brings in names that its host also has -- declared in the host module, or
     imported by the host from a third module -- plainly, through ONLY, and through ONLY with a rename whose
@@ -601,6 +639,9 @@ def run(chk):
     # 2c'. rename lists whose clauses depend on each other (chains, swaps, rotations)
     for label, units in rename_chain_layer():
         R.add(label, units, file_orders(rng, units, 1 if quick else 3))
+    # 2c''. two scopes share a non-ONLY statement text, their companion renames differ
+    for label, units, how in shared_statement_layer():
+        R.add(label, units, file_orders(rng, units, how if (how != "all" or not quick) else 6))
     # 2d. project modules named like intrinsic / extra modules
     special = special_layer()
     if quick:
@@ -611,7 +652,7 @@ def run(chk):
     n_random = 240 if quick else 4000
     for k in range(n_random):
         knobs = {"regions": rng.random() < 0.25, "p_clash": 0.3 if rng.random() < 0.15 else 0.0,
-                 "p_nested": 0.6 if rng.random() < 0.4 else 0.0, "p_special": 0.35, "p_blockdata": 0.2}
+                 "p_nested": 0.6 if rng.random() < 0.4 else 0.0, "p_special": 0.35, "p_blockdata": 0.2, "p_shared": 0.2}
         units = G.gen_graph(rng, knobs)
         R.add(f"random:{k}", units, file_orders(rng, units, 2 if quick else 4),
               html=any(u["unit"] == "program" and any(d.get("ref") for d in u["decls"]) for u in units)
